@@ -146,9 +146,16 @@ class Kit:
     class with the given domain type (or None), `snake(rng, t)` a (cap, cup, left_snake) triple
     yankable on a wire of type t (or None)."""
 
-    def __init__(self, name, cls, empty, atoms, box, snake):
+    def __init__(self, name, cls, empty, atoms, box, snake, make=None, grow=None, free=False,
+                 ev=None):
         self.name, self.cls, self.empty, self.atoms = name, cls, empty, atoms
         self.box, self.snake = box, snake
+        # `make(dom, cod, boxes, offsets)`: the class's constructor where its signature differs;
+        # `grow(rng, n_boxes, connected)`: the kit's own generator of (dom, cod, boxes, offsets);
+        # `free`: boxes of classes the library's `==`/dagger cannot be trusted on (well-typedness is
+        # then read with recvlib.wf_failure_any); `ev(d)`: the class's own evaluation, or None
+        self.make = make if make is not None else cls
+        self.grow, self.free, self.ev = grow, free, ev
 
     def ty(self, wires):
         t = self.empty
@@ -246,7 +253,157 @@ def make_kits():
         (2, 2): [zx.Z(2, 2)],
     }
     kits.append(Kit("zx", zx.Diagram, zx.PRO(0), [P], table_box(ztable), self_snake(P)))
+    kits.extend(make_undaggerable_kits(free_box, table_box))
     return kits
+
+
+def make_undaggerable_kits(free_box, table_box):
+    """Receivers whose boxes have NO usable dagger (box.dagger() raises, or hands back a box that
+    lost attributes): categorial-grammar derivations (biclosed FA / BA / FC / BC / Curry boxes),
+    diagrams of Python functions (cartesian), diagrams with Bubbles, boxes of user subclasses with
+    their own constructor, plain boxes carrying drawing attributes.  The monoidal normal form only
+    moves boxes: it must exist for them exactly as for plain boxes."""
+    from discopy import monoidal, biclosed, cartesian
+    kits = []
+    no_snake = lambda rng, t: None
+
+    # -- biclosed: derivations grown top-down from a goal type, words at the leaves
+    n, s = biclosed.Ty('n'), biclosed.Ty('s')
+    BB = biclosed.Box
+
+    def derivation(rng, goal, depth, count):
+        """A diagram Ty() -> goal: a word, or two sub-derivations joined by an application /
+        composition rule, or a curried box applied to one sub-derivation."""
+        r = rng.random()
+        if depth <= 0 or r < 0.25:
+            count[0] += 1
+            return BB("w%d" % rng.randint(0, 3), biclosed.Ty(), goal)
+        a = rng.choice([n, s, n, n >> s, s << n])
+        if r < 0.5:         # forward application: (goal << a) @ a
+            return derivation(rng, goal << a, depth - 1, count) @ derivation(rng, a, depth - 1, count) \
+                >> biclosed.FA(goal << a)
+        if r < 0.75:        # backward application: a @ (a >> goal)
+            return derivation(rng, a, depth - 1, count) @ derivation(rng, a >> goal, depth - 1, count) \
+                >> biclosed.BA(a >> goal)
+        if r < 0.83 and isinstance(goal, biclosed.Over):     # forward composition
+            return derivation(rng, goal.left << a, depth - 1, count) \
+                @ derivation(rng, a << goal.right, depth - 1, count) \
+                >> biclosed.FC(goal.left << a, a << goal.right)
+        if r < 0.9 and isinstance(goal, biclosed.Under):     # backward composition
+            return derivation(rng, goal.left >> a, depth - 1, count) \
+                @ derivation(rng, a >> goal.right, depth - 1, count) \
+                >> biclosed.BC(goal.left >> a, a >> goal.right)
+        if isinstance(goal, biclosed.Over):                  # a curried box below one derivation
+            return derivation(rng, a, depth - 1, count) >> biclosed.Curry(BB("f", a @ goal.right, goal.left))
+        return derivation(rng, a, depth - 1, count) >> BB("g%d" % rng.randint(0, 1), a, goal)
+
+    def biclosed_grow(rng, n_boxes, connected):
+        depth = 1 if n_boxes <= 3 else 2 if n_boxes <= 5 else 3
+        goals = [s, s, n, s << n, n >> s]
+        d = derivation(rng, rng.choice(goals), depth, [0])
+        if not connected:                                    # two sentences side by side
+            d = d @ derivation(rng, rng.choice(goals), 1, [0])
+        if rng.random() < 0.4 and len(d.cod) == 1:           # something below the root
+            d = d >> BB("h", d.cod, rng.choice([n, s, biclosed.Ty()]))
+        return [d.dom[i:i + 1] for i in range(len(d.dom))], \
+            [d.cod[i:i + 1] for i in range(len(d.cod))], list(d.boxes), list(d.offsets)
+    kits.append(Kit("biclosed", biclosed.Diagram, biclosed.Ty(), [n, s], None, no_snake,
+                    grow=biclosed_grow, free=True))
+
+    # -- cartesian: diagrams of Python functions on integers
+    CB = cartesian.Box
+    ftable = {
+        (0, 1): [CB('one', 0, 1, lambda: 1), CB('two', 0, 1, lambda: 2)],
+        (1, 0): [CB('del', 1, 0, lambda x: ())],
+        (1, 1): [CB('succ', 1, 1, lambda x: x + 1), CB('dbl', 1, 1, lambda x: 2 * x)],
+        (1, 2): [CB('dup', 1, 2, lambda x: (x, x))],
+        (2, 1): [CB('add', 2, 1, lambda x, y: x + y), CB('sub', 2, 1, lambda x, y: x - y)],
+        (2, 2): [CB('swp', 2, 2, lambda x, y: (y, x))],
+    }
+
+    def call(d):
+        return d(*range(3, 3 + len(d.dom)))
+    kits.append(Kit("cartesian", cartesian.Diagram, cartesian.PRO(0), [cartesian.PRO(1)],
+                    table_box(ftable), no_snake, free=True, ev=call,
+                    make=lambda dom, cod, boxes, offsets: cartesian.Diagram(
+                        len(dom), len(cod), boxes, offsets)))
+
+    # -- monoidal diagrams some of whose boxes are bubbles (a unary operator around a diagram)
+    mx, my = monoidal.Ty('x'), monoidal.Ty('y')
+    mfree = free_box(monoidal.Box, [mx, my], monoidal.Ty())
+
+    def bubble_box(rng, dom):
+        if rng.random() < 0.45:
+            inside = mfree(rng, dom)
+            if rng.random() < 0.4:
+                inside = inside >> mfree(rng, inside.cod)
+            if rng.random() < 0.3:      # a bubble with another boundary than its inside
+                return monoidal.Bubble(monoidal.Box('in', mx, my), dom=dom, cod=inside.cod)
+            return monoidal.Bubble(inside)
+        return mfree(rng, dom)
+    kits.append(Kit("bubbles", monoidal.Diagram, monoidal.Ty(), [mx, my], bubble_box, no_snake,
+                    free=True))
+
+    # -- boxes of a user subclass with its own constructor (type(box)(name=..) is not a call of it)
+    class Spider(monoidal.Box):
+        def __init__(self, n_in, n_out, label):
+            self.label = label
+            super().__init__("Spider(%d, %d, %r)" % (n_in, n_out, label), mx ** n_in, mx ** n_out)
+
+        def __repr__(self):
+            return self.name
+
+    def spider_box(rng, dom):
+        return Spider(len(dom), rng.choice([0, 1, 1, 1, 2, 2]), rng.choice("abc"))
+    kits.append(Kit("user-subclass", monoidal.Diagram, monoidal.Ty(), [mx], spider_box, no_snake,
+                    free=True))
+
+    # -- plain boxes that carry the documented drawing attributes
+    def attr_box(rng, dom):
+        cod = monoidal.Ty()
+        for _ in range(rng.choice([0, 1, 1, 1, 2, 2])):
+            cod = cod @ rng.choice([mx, my])
+        params = {}
+        for key, values in (("color", ["red", "blue", "green"]), ("draw_as_spider", [True]),
+                            ("shape", ["circle", "rectangle"]), ("drawing_name", ["", "F"]),
+                            ("tikzstyle_name", ["mystyle"]), ("draw_as_wires", [True])):
+            if rng.random() < 0.4:
+                params[key] = rng.choice(values)
+        return monoidal.Box("%s%d%d" % (rng.choice("fg"), len(dom), len(cod)), dom, cod, **params)
+    kits.append(Kit("drawing-attributes", monoidal.Diagram, monoidal.Ty(), [mx, my], attr_box,
+                    no_snake))
+    return kits
+
+
+def attr_view(box):
+    """What an object carries besides its class: its attribute table as plain text."""
+    try:
+        return sorted((k, repr(v)) for k, v in vars(box).items())
+    except Exception as exc:
+        return "unreadable: %r" % (exc,)
+
+
+def foreign_boxes(result, receiver):
+    """Boxes of `result` that are not boxes of `receiver`: each must be matched (as a multiset) by
+    the very same object, or by an indistinguishable copy - same class, same text, same attribute
+    table.  Returns the list of unmatched result boxes."""
+    pool = list(receiver.boxes)
+    rest = []
+    for b in result.boxes:
+        k = next((k for k, a in enumerate(pool) if a is b), None)
+        if k is None:
+            rest.append(b)
+        else:
+            pool.pop(k)
+    out = []
+    for b in rest:
+        k = next((k for k, a in enumerate(pool) if type(a) is type(b) and repr(a) == repr(b)
+                  and attr_view(a) == attr_view(b)), None)
+        if k is None:
+            out.append(b)
+        else:
+            pool.pop(k)
+    return out
 
 
 def grow_lists(kit, rng, n_boxes, connected, snakes):
@@ -372,15 +529,22 @@ def conventions_stream(rep, rng, drv, tier):
     mono = monoidal.Diagram.normalize
     per_kit = 14 if quick else 100
     for kit in kits:
-        for idx in range(per_kit):
+        # the receivers without a dagger (added later: fewer each, larger, nearly always walked so
+        # that connected ones have parallel branches in the wrong order for either preference)
+        late = kit.free or kit.name == "drawing-attributes"
+        for idx in range((7 if quick else 40) if late else per_kit):
             r = random.Random(rng.getrandbits(64))
-            connected = r.random() < 0.7
+            connected = r.random() < (0.8 if late else 0.7)
             snakes = 0 if kit.name == "monoidal" else r.choice([0, 1, 1, 2])
-            dom, cod, boxes, offsets = grow_lists(kit, r, r.randint(2, 7), connected, snakes)
-            if r.random() < 0.6:
+            size = r.randint(3, 8) if late else r.randint(2, 7)
+            if kit.grow is not None:
+                dom, cod, boxes, offsets = kit.grow(r, size, connected)
+            else:
+                dom, cod, boxes, offsets = grow_lists(kit, r, size, connected, snakes)
+            if r.random() < (0.9 if late else 0.6):
                 boxes, offsets = walk_lists(r, boxes, offsets, r.choice([3, 10, 30]))
             try:
-                d = kit.cls(kit.ty(dom), kit.ty(cod), boxes, offsets)
+                d = kit.make(kit.ty(dom), kit.ty(cod), boxes, offsets)
             except Exception as exc:
                 raise AssertionError("harness: kit %s built an ill-typed diagram: %r" % (kit.name, exc))
             conn = real_connected(d)
@@ -388,6 +552,10 @@ def conventions_stream(rep, rng, drv, tier):
             rep.count("conv_receiver:%s" % kit.name)
             rep.count("conv:%s" % ("connected" if conn else "disconnected"))
             rep.count("conv:%s" % ("with_cups_caps" if has_cups else "no_cups_caps"))
+            for b in d.boxes:
+                if kit.free or kit.name == "drawing-attributes":
+                    rep.count("conv_box_class:%s.%s" % (type(b).__module__.replace("discopy.", ""),
+                                                        type(b).__name__))
             for left in (False, True):
                 one_receiver(rep, r, drv, kit, d, conn, has_cups, left, shadow, mono)
 
@@ -486,7 +654,7 @@ def one_receiver(rep, r, drv, kit, d, conn, has_cups, left, shadow, mono):
             gave_up.add(want)
         rep.case("conv %s %s %s %s" % (kit.name, key(d), left, name), len(steps) >= 1)
         judge_call(rep, case, d, conn, left, want, has_cups, traces, got,
-                   logs.get(log) if log else None)
+                   logs.get(log) if log else None, kit)
         # second use of the same receiver and the same arguments: the same answer
         if got[0] == "ok" and r.random() < 0.15:
             again = outcome(thunk)
@@ -519,7 +687,7 @@ def one_receiver(rep, r, drv, kit, d, conn, has_cups, left, shadow, mono):
                               "left=%s)" % left), real[:300], model[:300])
 
 
-def judge_call(rep, case, d, conn, left, want, has_cups, traces, got, log):
+def judge_call(rep, case, d, conn, left, want, has_cups, traces, got, log, kit=None):
     """The property's predicate on the outcome of one call of normal_form."""
     steps, repeat_at, finished = traces[want]
     monoidal_request = want == "MONO" or not has_cups       # the C06 clauses apply in full
@@ -556,7 +724,11 @@ def judge_call(rep, case, d, conn, left, want, has_cups, traces, got, log):
             rep.count("conv:notimpl_on_terminating_disconnected")
         return
     nf = got[1]
-    why = wf_failure(nf)
+    if kit is not None and kit.free:
+        import recvlib
+        why = recvlib.wf_failure_any(nf)
+    else:
+        why = wf_failure(nf)
     if why:
         rep.fail("illtyped_normal_form", case, why)
         return
@@ -578,10 +750,33 @@ def judge_call(rep, case, d, conn, left, want, has_cups, traces, got, log):
             rep.fail("convention:boxes_changed", case,
                      "asked for the monoidal normal form (interchanges alone); the result has other "
                      "boxes: %s" % repr(nf)[:300])
+        elif foreign_boxes(nf, d):
+            b = foreign_boxes(nf, d)[0]
+            rep.fail("convention:boxes_not_the_receivers", case,
+                     "interchanges only move boxes, but box %s of the result is neither a box object of "
+                     "the receiver nor an indistinguishable copy of one (class %s, attributes %s)"
+                     % (repr(b)[:80], type(b).__name__,
+                        [kv for kv in attr_view(b) if not kv[0].startswith("_")]))
         elif not sc.real_terminal(nf, left):
             rep.fail("convention:not_fixed_point_of_given_normalizer", case,
                      "the result still has a %s redex: %s offsets %s"
                      % ("left" if left else "right", repr(nf)[:250], list(map(int, nf.offsets))))
+        if kit is not None and kit.ev is not None:
+            try:
+                before = kit.ev(d)
+            except Exception:
+                before = None
+                rep.count("conv:class_eval_unavailable")
+            if before is not None:
+                try:
+                    after = kit.ev(nf)
+                    if after != before:
+                        rep.fail("convention:class_evaluation_changed", case,
+                                 "the receiver evaluates to %r, its normal form to %r" % (before, after))
+                    rep.count("conv:class_eval_compared")
+                except Exception as exc:
+                    rep.fail("convention:result_not_evaluable", case,
+                             "the receiver evaluates, its normal form raises %r" % (exc,))
         if conn and traces["MONO"] is not None and traces["MONO"][2]:
             msteps = traces["MONO"][0]
             mlast = msteps[-1] if msteps else d
